@@ -3,17 +3,62 @@ from checklib import REPO
 from tables import invariants as I
 
 
+def descriptor_table(ctx, fc_args, tabs):
+    """The descriptor table the three argument-list builders are proved against (contracts/fc_args.KINDS) pairs a C
+    parameter with a Fortran dummy per buf_arg kind; each pair is judged by the interoperability oracle.  Also the
+    preconditions the units take from the statement tables."""
+    import string
+    for k, d in sorted(fc_args.KINDS.items()):
+        ctype = d["c_type"].strip("'")
+        ftype = d["f_type"]
+        ident = "C04/U1/descriptor[%s]" % k
+        if d["c_ptr"]:
+            # struct passed by address <-> derived type by reference (no VALUE); the struct/type pair itself is T3
+            ok = (not d["f_value"]) and ftype.startswith("'type('") and ctype.startswith("fmt.C_")
+            ctx.item(ident, ok, "pointer to struct %s must pair with type(...) without VALUE: %r" % (ctype, d))
+        else:
+            fdecl = "%s%s, intent(IN) :: x" % (ftype.strip("'"), ", value" if d["f_value"] else "")
+            good, why = I.interop("%s {c_var}" % ctype, fdecl)
+            ctx.item(ident, good, "C %r vs Fortran %r: %s" % (ctype + " x", fdecl, why),
+                     sample={"kind": k, "c": ctype + " x", "f": fdecl})
+            kind = I.ISO_KIND.get(ctype)
+            ctx.item(ident + ".use", d["use"] == kind, "USE registers %r, the dummy's kind is %r" % (d["use"], kind))
+            ctx.item(ident + ".actual", ("kind=%s)" % kind) in d["call"], "actual argument %s is not of kind %s" % (d["call"], kind))
+    allowed = {"c_var", "f_type", "f_intent", "f_c_dimension"}
+    for lang, t in sorted(tabs.items()):
+        for rname, row in sorted(t["rows"].items()):
+            for i, text in enumerate(row.get("f_arg_decl") or []):
+                try:
+                    fields = set(f for _, f, _, _ in string.Formatter().parse(text) if f is not None)
+                    ok = fields <= allowed
+                except ValueError:
+                    fields, ok = None, False
+                ctx.item("C04/T1/%s/%s.f_arg_decl[%d]:format-fields" % (lang, rname, i), ok,
+                         "build_arg_list_interface formats f_arg_decl with c_var, f_type, f_intent, f_c_dimension only; "
+                         "%r uses %r" % (text, fields))
+
+
 def run(ctx):
     tabs = I.load_tables(REPO)
     I.fortran_c_agreement(ctx, tabs)
-    units = []
-    try:
-        from contracts import wrap_args
-        units = wrap_args.UNITS
-    except ImportError:
-        pass
-    if units:
-        ctx.pyvc(units, {})
+    from contracts import fc_args
+    descriptor_table(ctx, fc_args, tabs)
+    units = fc_args.UNITS
+    mon = ("m_fcagree", lambda v: None, lambda nm: None, 80)
+    ctx.pyvc(units, dict((u.name, mon) for u in units))
+    # bounded stand-in at the property's own observation point (never counted as proved): gfortran's reading of every
+    # bind(C) interface against the generated C prototypes, regression corpus + synthetic declaration family
+    n = 1500 if ctx.tier == "quick" else 100000
+    r = ctx.monitor("m_fcagree", "psearch", n, ctx.seed, 16)
+    ctx.bounded.append({"monitor": "m_fcagree", "inputs_tried": r["tried"], "violation": r["violation"],
+                        "kind": "bounded: real generator on the regression corpus (plain, F_CFI, language c/c++) and on a "
+                                "synthetic family (type x indirection x intent x deref x dimension/rank, char/string/vector "
+                                "arguments and results, classes and structs by value/pointer/reference, random pairs); "
+                                "`gfortran -fc-prototypes` of each generated module compared with the generated C header: "
+                                "parameter count, order, scalar kind and size, pointer depth, struct layout",
+                        "bound": "%d libraries" % r["tried"]})
+    if r["violation"]:
+        ctx.violation("bounded/m_fcagree", {"inputs": r["inputs"], "observed": r["violation"]}, True)
     ctx.extra["exhaustive"] = True
     ctx.trusted += [
         "interoperability oracle written from ISO/IEC 1539-1 clause 18 (kind table, VALUE <-> by-value, pointer <-> "
@@ -25,7 +70,15 @@ def run(ctx):
         "function-result type agreement beyond Declaration.bind_c; user-supplied fstatements / C_prototype / F_C_arguments",
         "that the emitted text is what the compilers see after write_lines (layout covered by C13)",
     ]
-    lvl = "proof" if units else "other"
+    ctx.trusted += [
+        "C04/U1 callee contracts: Declaration.gen_arg_as_c / bind_c return the C / Fortran declaration of the argument "
+        "(abstract strings; their agreement is C09 territory and NOT proved), set_f_module / update_f_module register "
+        "what they are given (bodies not under contract), util.Scope(parent) reads fall through to the parent",
+        "C04/U1 preconditions taken from other components: one c_arg_decl / f_arg_decl per arg_decl row and format "
+        "fields of f_arg_decl (both checked here as T1 items), metaattrs['intent'] set and buffer-name attributes "
+        "strings or None (set by generate.py; not proved)",
+    ]
+    lvl = "proof"
     return ctx.finish(level=lvl, explanation="closed invariants over the constant tables (paired declarations, kind table, "
                       "paired struct/derived type, type-code tables, helper interfaces) decided by exhaustive evaluation on "
                       "the tables the real modules build; relational contracts on the argument-list builders by SMT")
